@@ -78,13 +78,13 @@ def run(ck, rng, tier, prop="C01"):
         ck.count("scaling %d" % scaling)
         ck.count("nproc %d" % nproc)
         ck.count("kind %s" % kind)
-    rc, outs, err = vf.run_driver(exe, "cap 400000\n" + "\n".join(lines) + "\n", timeout=1500)
-    if rc != 0 or len(outs) != len(meta):
-        ck.broken("driver drv_pca", "rc=%s cases=%d/%d %s" % (rc, len(outs), len(meta), err[-800:]))
-        return
+    outs = vf.run_driver_cases(ck, exe, lines, lambda k: ("PCA", {"X": meta[k][0], "scaling": meta[k][2], "npc": meta[k][3], "threads": meta[k][4]}),
+                               header="cap 400000\n", timeout=1500)
     checks = vf.Checks()
     cm, cv = vf.coq_mat, vf.coq_vec
     for i, (mt, o) in enumerate(zip(meta, outs)):
+        if o is None:
+            continue
         X, New, scaling, npc, nproc, rank, kind = mt
         n, m = len(X), len(X[0])
         ck.case(("pca", n, m, scaling, npc, repr(X[0])), nontrivial=n >= 3 and npc >= 1,
